@@ -72,14 +72,76 @@ theorem keyPoint_enc (A : EdPoint) : ∃ (P : Pt) (hP : Valid P), keyPoint (edOp
   rw [edOps_dec_enc] at h2
   exact (Option.some.inj h2).symm
 
+/-! ### dalek's Niels-form addition / subtraction (Model/KeyOps `dalekAdd`, `dalekSub`) compute the coordinates of `Ed.add` / `Ed.sub` -/
+/-- two reduced residues with the same image in the field are equal -/
+theorem mod_eq_of_cast {a b : ℕ} (h : ((a : ℕ) : F) = (b : F)) : a % Ed.p = b % Ed.p := (cast_eq_iff a b).mp h
+
+theorem dalekAdd_eq (a b : Pt) : dalekAdd a b = Ed.add a b := by
+  have hA : (a.y + Ed.p - a.x) % Ed.p * ((b.y + Ed.p - b.x) % Ed.p) % Ed.p
+      = (a.y + Ed.p - a.x) * (b.y + Ed.p - b.x) % Ed.p := (Nat.mul_mod _ _ _).symm
+  have hB : (a.y + a.x) % Ed.p * ((b.y + b.x) % Ed.p) % Ed.p = (a.y + a.x) * (b.y + b.x) % Ed.p := (Nat.mul_mod _ _ _).symm
+  have hC : a.t * (b.t * (2 * Ed.d % Ed.p) % Ed.p) % Ed.p = a.t * 2 * Ed.d % Ed.p * b.t % Ed.p := by
+    apply mod_eq_of_cast
+    push_cast; simp only [cast_mod]; push_cast; simp only [cast_mod]; push_cast; ring
+  have hD : (a.z * b.z % Ed.p + a.z * b.z % Ed.p) % Ed.p = a.z * 2 * b.z % Ed.p := by
+    apply mod_eq_of_cast
+    push_cast; simp only [cast_mod]; push_cast; ring
+  unfold dalekAdd Ed.add toNiels completedToExtended
+  simp only [hA, hB, hC, hD]
+  refine congr (congr (congr (congrArg Pt.mk rfl) ?_) ?_) rfl
+  · rw [Nat.mul_comm]
+  · rw [Nat.mul_comm]
+
+theorem dalekSub_eq (a b : Pt) (hb : b.x < Ed.p) : dalekSub a b = Ed.sub a b := by
+  have hnx : (((Ed.p - b.x % Ed.p) % Ed.p : ℕ) : F) = -(b.x : F) := by rw [cast_neg _ (mod_p_lt _), cast_mod]
+  have hnt : (((Ed.p - b.t % Ed.p) % Ed.p : ℕ) : F) = -(b.t : F) := by rw [cast_neg _ (mod_p_lt _), cast_mod]
+  have hnt' : (((Ed.p - b.t % Ed.p : ℕ)) : F) = -(b.t : F) := by rw [← hnt, cast_mod]
+  have hnxle : (Ed.p - b.x % Ed.p) % Ed.p ≤ b.y + Ed.p := Nat.le_trans (Nat.le_of_lt (mod_p_lt _)) (Nat.le_add_left _ _)
+  -- MP (mine) = A of Ed.add a (neg b); PM = B; TT2d = −C; ZZ2 = D
+  have hA : (a.y + Ed.p - a.x) % Ed.p * ((b.y + b.x) % Ed.p) % Ed.p
+      = (a.y + Ed.p - a.x) * (b.y + Ed.p - (Ed.p - b.x % Ed.p) % Ed.p) % Ed.p := by
+    rw [← Nat.mul_mod]
+    apply mod_eq_of_cast
+    push_cast; rw [cast_sub_p _ _ hnxle, hnx]; ring
+  have hB : (a.y + a.x) % Ed.p * ((b.y + Ed.p - b.x) % Ed.p) % Ed.p
+      = (a.y + a.x) * (b.y + (Ed.p - b.x % Ed.p) % Ed.p) % Ed.p := by
+    rw [← Nat.mul_mod]
+    apply mod_eq_of_cast
+    push_cast; rw [cast_sub_p _ _ (by omega), hnx]; ring
+  have hD : (a.z * b.z % Ed.p + a.z * b.z % Ed.p) % Ed.p = a.z * 2 * b.z % Ed.p := by
+    apply mod_eq_of_cast
+    push_cast; simp only [cast_mod]; push_cast; ring
+  -- F and G of the reference against Z and T of dalek's completed point
+  have hG : ∀ D : ℕ, (D + Ed.p - a.t * (b.t * (2 * Ed.d % Ed.p) % Ed.p) % Ed.p) % Ed.p
+      = (D + a.t * 2 * Ed.d % Ed.p * ((Ed.p - b.t % Ed.p) % Ed.p) % Ed.p) % Ed.p := by
+    intro D
+    apply mod_eq_of_cast
+    rw [cast_sub_p _ _ (Nat.le_trans (Nat.le_of_lt (mod_p_lt _)) (Nat.le_add_left _ _))]
+    simp only [cast_mod, Nat.cast_mul, Nat.cast_add, Nat.cast_ofNat, hnt']; ring
+  have hF : ∀ D : ℕ, (D + a.t * (b.t * (2 * Ed.d % Ed.p) % Ed.p) % Ed.p) % Ed.p
+      = (D + Ed.p - a.t * 2 * Ed.d % Ed.p * ((Ed.p - b.t % Ed.p) % Ed.p) % Ed.p) % Ed.p := by
+    intro D
+    apply mod_eq_of_cast
+    rw [cast_sub_p _ _ (Nat.le_trans (Nat.le_of_lt (mod_p_lt _)) (Nat.le_add_left _ _))]
+    simp only [cast_mod, Nat.cast_mul, Nat.cast_add, Nat.cast_ofNat, hnt']; ring
+  unfold dalekSub Ed.sub Ed.add Ed.neg toNiels completedToExtended
+  simp only [hA, hB, hD, hG, hF]
+  refine congr (congr (congr (congrArg Pt.mk rfl) ?_) ?_) rfl
+  · rw [Nat.mul_comm]
+  · rw [Nat.mul_comm]
+
 theorem keyAdd_of_points (a b : Bytes) (P Q : Pt) (h1 : keyPoint a = some P) (h2 : keyPoint b = some Q) :
     keyAdd a b = some (Ed.encodePt (Ed.add P Q)) := by
   unfold keyAdd keyOfPoint
   rw [h1, h2]
-theorem keySub_of_points (a b : Bytes) (P Q : Pt) (h1 : keyPoint a = some P) (h2 : keyPoint b = some Q) :
+  show some (Ed.encodePt (dalekAdd P Q)) = _
+  rw [dalekAdd_eq]
+theorem keySub_of_points (a b : Bytes) (P Q : Pt) (hQ : Q.x < Ed.p) (h1 : keyPoint a = some P) (h2 : keyPoint b = some Q) :
     keySub a b = some (Ed.encodePt (Ed.sub P Q)) := by
   unfold keySub keyOfPoint
   rw [h1, h2]
+  show some (Ed.encodePt (dalekSub P Q)) = _
+  rw [dalekSub_eq _ _ hQ]
 theorem keySmul_of_point (s a : Bytes) (P : Pt) (h1 : keyPoint a = some P) :
     keySmul s a = some (Ed.encodePt (Ed.smul (Ed.leNat s) P)) := by
   unfold keySmul keyOfPoint
@@ -93,7 +155,7 @@ theorem keyAdd_enc (A B : EdPoint) : keyAdd (edOps.enc A) (edOps.enc B) = some (
 theorem keySub_enc (A B : EdPoint) : keySub (edOps.enc A) (edOps.enc B) = some (edOps.enc (A - B)) := by
   obtain ⟨P, hP, h1, hA⟩ := keyPoint_enc A
   obtain ⟨Q, hQ, h2, hB⟩ := keyPoint_enc B
-  rw [keySub_of_points _ _ P Q h1 h2, encodePt_eq_enc (valid_sub' hP hQ), toPoint_sub hP hQ, hA, hB]
+  rw [keySub_of_points _ _ P Q hQ.reduced.1 h1 h2, encodePt_eq_enc (valid_sub' hP hQ), toPoint_sub hP hQ, hA, hB]
 
 theorem keySmul_enc (s : Bytes) (hs : Ed.leNat s < 2 ^ 260) (A : EdPoint) :
     keySmul s (edOps.enc A) = some (edOps.enc (Ed.leNat s • A)) := by
